@@ -78,11 +78,14 @@ class Gates:
             if d is None:
                 continue
             op, src_origin, k = d
+            inline = isinstance(src_origin, tuple)
             if op != "Eq" or k != 1:
-                if src_origin in self.loaders or src_origin == "inline-load":
+                if inline or src_origin in self.loaders:
                     self.gates[b["key"]] = ("BAD", "compares the count with `%s %s` instead of `== 1`" % (op, k))
                 continue
-            if src_origin in self.loaders:
+            if inline:
+                self.gates[b["key"]] = (src_origin[1], None)  # `count.load(ord) == 1` written out in the gate itself
+            elif src_origin in self.loaders:
                 self.gates[b["key"]] = (self.loaders[src_origin], None)
 
     def _ret_origin(self, B):
@@ -114,15 +117,22 @@ class Gates:
         callee = atomics.callee_of(t)
         if callee in self.loaders:
             return rv["op"], callee, k
-        if atomics.atomic_class(t) == model.ATOMIC_LOAD:
-            return rv["op"], "inline-load", k
+        if atomics.atomic_class(t) == model.ATOMIC_LOAD and atomics.receiver_is_count(self.F, B, t):
+            return rv["op"], ("inline-load", atomics.ordering_of(B, t["args"][1]) if len(t["args"]) > 1 else None), k
         return None
 
 
 def gate_cuts(F, G, B, E=None):
     """Edges (bb, target) on which a gate test of a handle derived from argument r is known true: {r: set(edges)}."""
     cuts = {}
-    for (bi, tgt, roots, _o) in gate_edges_with_order(F, G, B, E):
+    weak = B.b.setdefault("_weak_gate_edges", [])
+    for (bi, tgt, roots, o) in gate_edges_with_order(F, G, B, E):
+        if o is not None and o != "BAD" and o not in atomics.ACQUIRE_OK:
+            # `if Arc::strong_count(&a) == 1` (a Relaxed load): tells the number of owners but orders nothing - it cannot license
+            # exclusive access (the former owners' accesses would not happen-before it)
+            if (bi, tgt, o) not in weak:
+                weak.append((bi, tgt, o))
+            continue
         for r in roots:
             cuts.setdefault(r, set()).add((bi, tgt))
     return cuts
@@ -365,7 +375,7 @@ def fresh_value(F, E, B, op, depth=0):
                 continue
             if hn == "Arc":
                 # built from a pointer: fresh iff the pointer comes from an allocation helper
-                o = B.origin(rv["ops"][0])
+                o = _origin_through_places(B, rv["ops"][0])
                 if o.get("kind") == "call":
                     c2 = atomics.callee_of(o["term"])
                     if c2 in F.bodies and _is_alloc_helper(E, c2):
@@ -393,10 +403,22 @@ def _ptr_from_alloc(F, E, B, t, depth):
     if c in F.bodies and _is_alloc_helper(E, c):
         return True
     for a in t["args"]:
-        o = B.origin(a)
+        o = _origin_through_places(B, a)
         if o.get("kind") == "call" and _ptr_from_alloc(F, E, B, o["term"], depth + 1):
             return True
     return False
+
+
+def _origin_through_places(B, op):
+    """Origin of an operand, looking through field projections of locals (`match NonNull::new(p) { Some(p) => p, .. }` reads
+    `(opt as Some).0`: the pointer is still the one the call produced)."""
+    o = B.origin(op)
+    for _ in range(6):
+        if o.get("kind") == "place" and "deref" not in o["place"]["p"]:
+            o = B.origin_local(o["place"]["l"])
+        else:
+            break
+    return o
 
 
 def _through_unique(F, B, pl, seen, depth=0):
@@ -475,14 +497,20 @@ def _gate_def(F, G, rep, tag):
         rep.bad("ANCHOR-LOST", "R-GATE-DEF", "no function of the shape `load(count) == 1` found", None, tag)
 
 
-def rule_gate_def(ctx, rep):
-    """The uniqueness gate is `Acquire load(count) == 1` (shared by C03, C08, C09: their schedule clauses rest on it)."""
+def rule_gate_def(ctx, rep, with_release=True):
+    """The uniqueness gate is `Acquire load(count) == 1` (shared by C01, C02, C03, C08, C09: their schedule clauses rest on it),
+    and the decrements it synchronises with are Release."""
     for tag, F, E in ctx.each():
         _gate_def(F, Gates(F), rep, tag)
     rep.floor("R-GATE-DEF", 1, "one gate definition")
+    if with_release:
+        from . import c02
+
+        c02.rule_dec_release(ctx, rep)
 
 
-def run(ctx, rep):
+def rule_gate(ctx, rep):
+    """R-GATE over every producer of exclusive access in the crate (and R-GATE-DEF)."""
     for tag, F, E in ctx.each():
         A = balance.analysis(tag, F, E)
         G = Gates(F)
@@ -532,9 +560,10 @@ def run(ctx, rep):
                         rep.ok("R-GATE", ik, "sole owner by type (UniqueArc)", cfg=tag)
                         continue
                     roots = root_args(B, root_pl["l"])
-                    if b.get("unsafe") and roots and prod != "mutable borrow of the payload":
+                    if b.get("unsafe") and roots and (prod != "mutable borrow of the payload" or not balance.is_api(F, b)):
+                        # an unsafe constructor, or a crate-private unsafe accessor (`unsafe fn data_mut_unchecked(&mut Arc) -> &mut T`)
                         unsafe_producers.setdefault(b["key"], set()).update(roots)
-                        rep.ok("R-GATE", ik, "unsafe constructor: obligation moves to its call sites", cfg=tag)
+                        rep.ok("R-GATE", ik, "unsafe: obligation moves to its call sites", cfg=tag)
                         continue
                     if cuts is None:
                         cuts = gate_cuts(F, G, B, E)
@@ -543,6 +572,29 @@ def run(ctx, rep):
                         rep.ok("R-GATE", ik, cfg=tag)
                     else:
                         rep.bad("R-GATE", ik, "%s in %s is reachable from the function entry without passing the true edge of the uniqueness test on the same handle (and without the handle having been replaced by a fresh allocation): mutable access would be handed out while other owners exist" % (prod, b["key"]), loc, tag)
+            # the same re-typing spelled as a call: `(arc as *mut Arc<T>).cast::<UniqueArc<T>>()`
+            for bi, t in B.calls():
+                r = t.get("resolved")
+                path = atomics.callee_of(t) or ""
+                if not (path.endswith(">::cast") and isinstance(r, dict) and t["args"]):
+                    continue
+                tys = [a["t"] for a in r["args"] if "t" in a]
+                if len(tys) != 2 or F.handle_name(tys[0]) != "Arc" or F.handle_name(tys[1]) != "UniqueArc":
+                    continue
+                nprod += 1
+                ik = "%s/cast-to-unique-ref" % b["key"]
+                pl = operand_place(t["args"][0])
+                roots = root_args(B, pl["l"]) if pl is not None else set()
+                if b.get("unsafe") and roots:
+                    unsafe_producers.setdefault(b["key"], set()).update(roots)
+                    rep.ok("R-GATE", ik, "unsafe constructor: obligation moves to its call sites", cfg=tag)
+                    continue
+                if cuts is None:
+                    cuts = gate_cuts(F, G, B, E)
+                if _justified(F, E, B, cuts, roots, bi):
+                    rep.ok("R-GATE", ik, cfg=tag)
+                else:
+                    rep.bad("R-GATE", ik, "cast of `&mut Arc` to `&mut UniqueArc` in %s is reachable from the function entry without passing the true edge of the uniqueness test on the same handle: mutable access would be handed out while other owners exist" % b["key"], F.loc(b, t["span"]), tag)
         # ---- call sites of unsafe producers
         ncall = 0
         for b in F.body_list:
@@ -560,6 +612,12 @@ def run(ctx, rep):
                         rep.ok("R-GATE", ik, "argument is fresh / sole owner by type", cfg=tag)
                         continue
                     pl = operand_place(a)
+                    if pl is not None:
+                        o = B.origin(a)
+                        src = o["rv"]["place"] if o.get("kind") == "rvalue" and o["rv"]["k"] in ("ref", "rawptr") else (o.get("place") if o.get("kind") == "place" else None)
+                        if src is not None and _through_unique(F, B, src, set()):
+                            rep.ok("R-GATE", ik, "argument reached through a UniqueArc: sole owner by type", cfg=tag)
+                            continue
                     roots = root_args(B, pl["l"]) if pl is not None else set()
                     if b.get("unsafe") and roots and b["key"] != callee:
                         unsafe_producers.setdefault(b["key"], set()).update(roots)
@@ -569,6 +627,38 @@ def run(ctx, rep):
                         rep.ok("R-GATE", ik, cfg=tag)
                     else:
                         rep.bad("R-GATE", ik, "the unchecked constructor %s is called with a handle that has not been found to be the sole owner on every path reaching the call" % callee, F.loc(b, t["span"]), tag)
+
+
+def rule_gate_for(ctx, rep, members):
+    """R-GATE restricted to a family of functions (used by C08/C09: the sole-owner branch of their functions must sit behind the
+    Acquire gate). `members(F)` yields the body keys of the family."""
+    tmp = core.Report(rep.prop)
+    rule_gate(ctx, tmp)
+    keys = set()
+    for tag, F, E in ctx.each():
+        keys |= set(members(F))
+    n = 0
+    for k in tmp.order:
+        inst = tmp.instances[k]
+        if inst["rule"] != "R-GATE":
+            continue
+        fn = inst["key"].rsplit("/", 1)[0]
+        if fn not in keys:
+            continue
+        n += 1
+        if inst["ok"]:
+            for c in inst["configs"] or [None]:
+                rep.ok("R-GATE", inst["key"], inst.get("okmsg"), cfg=c)
+        else:
+            for c in inst["configs"] or [None]:
+                rep.bad("R-GATE", inst["key"], inst["msgs"][0] if inst["msgs"] else "", inst["locs"][0] if inst["locs"] else None, c)
+    return n
+
+
+def run(ctx, rep):
+    rule_gate(ctx, rep)
+    for tag, F, E in ctx.each():
+        A = balance.analysis(tag, F, E)
         # ---- decline behaviour and the panicking deprecated writers
         for name in ("get_mut",):
             for b in F.method("Arc", name):
@@ -582,6 +672,9 @@ def run(ctx, rep):
 
     c09.rule_decline(ctx, rep)
     rule_panic_decline(ctx, rep)
+    from . import c02
+
+    c02.rule_dec_release(ctx, rep)  # the Acquire gate orders nothing unless the decrements it reads from are Release
     balance.rule_count_addr(ctx, rep)
     rep.floor("R-COUNT-ADDR", 1, "one instance per run")
     balance.rule_use_after_release(ctx, rep)  # the gate is only meaningful if nobody keeps using a block after giving its count back
@@ -686,11 +779,7 @@ def _via_data_pointer_handle(F, B, l, depth=0):
             if any(isinstance(pe, dict) and pe.get("adt") in dph for pe in pl["p"]):
                 return pl
             return None
-        if o.get("kind") == "rvalue" and o["rv"]["k"] in ("ref", "rawptr"):
-            pl = o["rv"]["place"]
-            if any(isinstance(pe, dict) and pe.get("adt") in dph for pe in pl["p"]):
-                return pl
-            return None
+        # (a reference *to* the pointer field - `&mut self.ptr` - is not the value pointer: dereferencing it yields the field)
         return None
     return None
 
@@ -752,8 +841,14 @@ def refresh_blocks(F, E, B, roots, depth=0):
             if cb.get("inputs") and F.ty(cb["inputs"][0])["k"] == "ref" and F.ty(cb["inputs"][0])["mut"]:
                 CB = cfg.Body(cb)
                 inner = refresh_blocks(F, E, CB, {1}, depth + 1)
+                # the helper may also *test* the handle itself (`if !this.is_unique() { *this = fresh }`): on return the
+                # handle is a sole owner if every path passed the gate-true edge or a fresh assignment
+                G = F.__dict__.get("_gates_cache")
+                if G is None:
+                    G = F.__dict__["_gates_cache"] = Gates(F)
+                edges = gate_cuts(F, G, CB, E).get(1, set())
                 rets = [i for i, x in enumerate(cb["blocks"]) if x["term"]["k"] == "return"]
-                if inner and rets and not any(reachable_without(CB, set(), inner, r) for r in rets):
+                if (inner or edges) and rets and not any(reachable_without(CB, edges, inner, r) for r in rets):
                     out.add(bi)
     return out
 
